@@ -134,7 +134,12 @@ def signature(o):
 
 
 def run_program(prog):
-    return signature(call(G, prog['target'](), prog['spec'](), **prog.get('kw', {})))
+    target = prog['target']()
+    o = call(G, target, prog['spec'](), **prog.get('kw', {}))
+    sig = signature(o)
+    if 'post' in prog:
+        sig += (prog['post'](target, o),)
+    return sig
 
 
 SHARED_GROUP = Group({lambda x: Y(x) % 3: [T]})
@@ -189,6 +194,11 @@ def programs(n_yields):
         dict(name='check-validate', target=nums, spec=lambda: [Check(validate=lambda x: Y(x) >= 0)]),
         dict(name='star-then-yield', target=lambda: {'r': [{'k': i} for i in range(n_yields)]}, spec=lambda: ('r.*.k', [Y])),
         dict(name='failing-in-list', target=nums, spec=lambda: [lambda x: Y(x)] if not n_yields else ([lambda x: Y(x)], T[99])),
+        # every call raises an exception of ITS OWN class; all these classes share one __name__
+        dict(name='same-named-exceptions', target=lambda: {'cls': type('NotFound', (LookupError,) if next(_serial) % 2 else (ValueError,), {})},
+             spec=lambda: chain(T) + (lambda t: (_ for _ in ()).throw(t['cls']('nf')),),
+             post=lambda target, o: ('caught-as-own-class', (not o.ok) and isinstance(o.exc, target['cls']),
+                                     'bases', sorted(b.__name__ for b in type(o.exc).__mro__ if b.__name__ in ('LookupError', 'ValueError')) == sorted(b.__name__ for b in target['cls'].__mro__ if b.__name__ in ('LookupError', 'ValueError')) if not o.ok else None)),
         # container literals in ARGUMENT position whose construction is interrupted by a yield point; the spec objects are
         # shared between threads (a memo keyed by id(spec) that outlives one call would hand one call another call's value)
         dict(name='shared-arg-default', target=lambda: {'v': threading.get_ident()}, spec=lambda: _shared_arg('default', n_yields)),
@@ -444,9 +454,13 @@ def reentrant(col, rng):
     def inner_runner(prog, mode):
         """a callable that evaluates `prog` re-entrantly and reports / re-raises"""
         def fn(target):
-            o = call(G, prog['target'](), prog['spec'](), **prog.get('kw', {}))
+            inner_target = prog['target']()
+            o = call(G, inner_target, prog['spec'](), **prog.get('kw', {}))
             if mode == 'record':
-                observed.append((prog['name'], signature(o)))
+                sig = signature(o)
+                if 'post' in prog:
+                    sig += (prog['post'](inner_target, o),)
+                observed.append((prog['name'], sig))
                 return target
             if o.ok:
                 return o.value
